@@ -32,6 +32,57 @@ Fixpoint check_all (elem : ty) (vs : list val) : res (list val) :=
       end
   end.
 
+(* the field loop of StructReplacer and the item loop of Slice(Dots)Replacer, generic in the
+   replacer of the parts *)
+Section Loops.
+  Variable r : val -> ty -> res val.
+  Fixpoint ifields (ps : list val) (fis : list finfo) : res (list val) :=
+    match ps with
+    | [] => Ok []
+    | p :: ps' =>
+        let want := match fis with fi :: _ => f_type fi | [] => 0 end in
+        match r p want with
+        | Ok v =>
+            match (match v with
+                   | Ptr _ _ | Iface _ _ => check_assignable v want   (* v.Field(i).Set(fv) *)
+                   | _ => Ok v
+                   end) with
+            | Ok v' => match ifields ps' (tl fis) with
+                       | Ok vs => Ok (v' :: vs)
+                       | Err e => Err e
+                       end
+            | Err e => Err e
+            end
+        | Err e => Err e
+        end
+    end.
+
+  Variable r1 : val -> res val.
+  Variable run : N -> list val.
+  Variable tp : ty.
+  Fixpoint ilist (ps : list val) : res (list val) :=
+    match ps with
+    | [] => Ok []
+    | p :: ps' =>
+        match dots_item tp p with
+        | Some i =>
+            (* the run the associated '-' dots skipped, as it is now *)
+            match ilist ps' with
+            | Ok vs => Ok (run i ++ vs)
+            | Err e => Err e
+            end
+        | None =>
+            match r1 p with
+            | Ok v => match ilist ps' with
+                      | Ok vs => Ok (v :: vs)
+                      | Err e => Err e
+                      end
+            | Err e => Err e
+            end
+        end
+    end.
+End Loops.
+
 (* what the replacer compiled from a captured value reproduces: the value without its
    *ast.Object links (comment groups are already absent from the trees) *)
 Fixpoint strip (v : val) : val :=
@@ -58,32 +109,24 @@ Section Replace.
     | Nil t => Ok (Nil t)
     | Pos b => Ok (Pos b)                 (* valid stays valid (matched or fallback position) *)
     | Atom t a => Ok (Atom t a)
-    | Ptr tp (Struct sp [ppos; Atom ta name; pobj]) =>
-        match (if N.eqb tp T_P_ast_Ident then mk name else None) with
-        | Some _ =>
-            (* MetavarReplacer: a fresh copy of what the metavariable stood for *)
-            match assoc name (d_mv d) with
-            | Some v => Ok (strip v)
-            | None => Err (ENoMetavar name)
-            end
-        | None =>
-            match inst ppos T_token_Pos d with
-            | Ok vpos =>
-                match inst pobj 0 d with
-                | Ok vobj => Ok (Ptr tp (Struct sp [vpos; Atom ta name; vobj]))
-                | Err e => Err e
-                end
-            | Err e => Err e
-            end
-        end
     | Ptr tp ps =>
+        if N.eqb tp T_P_ast_Object then Ok (Nil tp) else      (* *ast.Object: never reproduced *)
         let generic := fun (_ : unit) =>
-          if N.eqb tp T_P_ast_Object then Ok (Nil tp) else
           match inst ps 0 d with
           | Ok v => Ok (Ptr tp v)
           | Err e => Err e
           end in
         match ps with
+        | Struct sp [ppos; Atom ta name; pobj] =>
+            match (if N.eqb tp T_P_ast_Ident then mk name else None) with
+            | Some _ =>
+                (* MetavarReplacer: a fresh copy of what the metavariable stood for *)
+                match assoc name (d_mv d) with
+                | Some v => Ok (strip v)
+                | None => Err (ENoMetavar name)
+                end
+            | None => generic tt
+            end
         | Struct _ [_; Nil _; Iface _ c; Nil _; body] =>
             match (if N.eqb tp T_P_ast_ForStmt then is_dots c else None) with
             | Some i =>
@@ -112,68 +155,28 @@ Section Replace.
         | Err e => Err e
         end
     | Struct sp ps =>
-        match
-        (fix go (ps : list val) (fis : list finfo) {struct ps} : res (list val) :=
-           match ps with
-           | [] => Ok []
-           | p :: ps' =>
-               let want := match fis with fi :: _ => f_type fi | [] => 0 end in
-               match inst p want d with
-               | Ok v =>
-                   match (match v with
-                          | Ptr _ _ | Iface _ _ => check_assignable v want   (* v.Field(i).Set(fv) *)
-                          | _ => Ok v
-                          end) with
-                   | Ok v' => match go ps' (tl fis) with
-                              | Ok vs => Ok (v' :: vs)
-                              | Err e => Err e
-                              end
-                   | Err e => Err e
-                   end
-               | Err e => Err e
-               end
-           end) ps (fields_of sp)
-        with Ok vs => Ok (Struct sp vs) | Err e => Err e end
+        match ifields (fun p want => inst p want d) ps (fields_of sp) with
+        | Ok vs => Ok (Struct sp vs)
+        | Err e => Err e
+        end
     | Slice tp ps =>
         let elem := slice_elem tp in
-        match
-        (fix go (ps : list val) {struct ps} : res (list val) :=
-           match ps with
-           | [] => Ok []
-           | p :: ps' =>
-               match dots_item tp p with
-               | Some i =>
-                   (* the run the associated '-' dots skipped, as it is now *)
-                   let run := match assoc (assoc_dots i) (d_dots d) with
-                              | Some r => map cap r
-                              | None => []
-                              end in
-                   match go ps' with
-                   | Ok vs => Ok (run ++ vs)
-                   | Err e => Err e
-                   end
-               | None =>
-                   match inst p elem d with
-                   | Ok v => match go ps' with
-                             | Ok vs => Ok (v :: vs)
-                             | Err e => Err e
-                             end
-                   | Err e => Err e
-                   end
-               end
-           end) ps
-        with
-              | Err e => Err e
-              | Ok vs =>
-                  if existsb (fun p => match dots_item tp p with Some _ => true | None => false end) ps
-                  then
-                    (* SliceDotsReplacer: nil when empty; every item must fit the element type *)
-                    match vs with
-                    | [] => Ok (Nil tp)
-                    | _ => match check_all elem vs with Ok vs' => Ok (Slice tp vs') | Err e => Err e end
-                    end
-                  else
-                    match check_all elem vs with Ok vs' => Ok (Slice tp vs') | Err e => Err e end
+        let run := fun i => match assoc (assoc_dots i) (d_dots d) with
+                            | Some r => map cap r
+                            | None => []
+                            end in
+        match ilist (fun p => inst p elem d) run tp ps with
+        | Err e => Err e
+        | Ok vs =>
+            if existsb (fun p => match dots_item tp p with Some _ => true | None => false end) ps
+            then
+              (* SliceDotsReplacer: nil when empty; every item must fit the element type *)
+              match vs with
+              | [] => Ok (Nil tp)
+              | _ => match check_all elem vs with Ok vs' => Ok (Slice tp vs') | Err e => Err e end
+              end
+            else
+              match check_all elem vs with Ok vs' => Ok (Slice tp vs') | Err e => Err e end
         end
     end.
 
